@@ -440,8 +440,7 @@ def ctorProperty (name ty : Str) (val : Val) (isArray : Bool) (asz : Option Int)
   | _ => pure ()
   if refCls.isSome ∧ isArray then .error .valueError
   else if !isCimType ty then .error .valueError
-  else pure (.mk name ty val isArray (asz.map Int.toNat) refCls origin propagated
-    (match embA with | some (c :: cs) => some (c :: cs) | _ => none) (dictOfList Qual.name quals))
+  else pure (.mk name ty val isArray (asz.map Int.toNat) refCls origin propagated embA (dictOfList Qual.name quals))
 
 /-- mirrors pywbem/_tupleparse.py: TupleParser.parse_property -/
 def decProperty (t : Xml) : R Prop_ := do
